@@ -18,14 +18,15 @@ from pyvc import strings as S
 from pyvc.contract import Contract, register
 from pyvc.interp import PyRaise
 from pyvc.sym import SMap, SObj, SStr, SBool, FV, StrSort, TERM_REG, fresh_str, lit, mk_str, str_z, eq_z3
-from spec import v2 as S2, v3 as S3
+from spec import v2 as S2, v3 as S3, v4 as S4
 
-from . import cvss2 as C2, cvss3 as C3
+from . import cvss2 as C2, cvss3 as C3, cvss4 as C4
 from .common import di_matches, map_equal
-from .parse import G2, G3
+from .parse import G2, G3, G4
 
 B = z3.BoolSort()
-f_syn = {"2": z3.Function("Syn2", StrSort, B), "3": z3.Function("Syn3", StrSort, B)}
+f_syn = {"2": z3.Function("Syn2", StrSort, B), "3": z3.Function("Syn3", StrSort, B),
+         "4": z3.Function("Syn4", StrSort, B)}
 f_minor3 = z3.Function("minor3", StrSort, z3.IntSort())
 
 
@@ -126,6 +127,13 @@ class CheckMandatory3(CheckMandatory):
     module, qualname, cls = "cvss3", "CVSS3.check_mandatory", "CVSS3"
     grammar = G3
     mandatory_error = "CVSS3MandatoryError"
+
+
+@register
+class CheckMandatory4(CheckMandatory):
+    module, qualname, cls = "cvss4", "CVSS4.check_mandatory", "CVSS4"
+    grammar = G4
+    mandatory_error = "CVSS4MandatoryError"
 
 
 # ---------------------------------------------------------------------------------------------
@@ -285,6 +293,57 @@ class Init2(Init):
         return None
 
 
+@register
+class Init4(Init):
+    module, qualname, cls = "cvss4", "CVSS4.__init__", "CVSS4"
+    grammar, version = G4, "4"
+    malformed, mandatory_error = "CVSS4MalformedError", "CVSS4MandatoryError"
+
+    def check_return(self, ctx, value):
+        from .common import float_matches
+
+        o, vec = ctx.data["self"], ctx.data["vec"]
+        v = getattr(o, "v4view", None)
+        if v is None:
+            ctx.fail("post:view", "constructor finished without parsing the vector")
+            return
+        ctx.prove("post:syn", f_syn["4"](vec.z), "a constructed object comes from a string in the grammar")
+        ctx.prove("post:mandatory", G4.mand(v.o.dom), "every mandatory metric is present")
+        ctx.prove("post:vector", eq_z3(o.fields.get("vector"), vec), "self.vector is the supplied string")
+        om, m = o.fields.get("original_metrics"), o.fields.get("metrics")
+        if not (isinstance(om, SMap) and isinstance(m, SMap)):
+            ctx.fail("post:maps", "metrics / original_metrics are not metric maps")
+            return
+        ctx.prove("post:original==O", map_equal(om.dom, om.val, v.o.dom, v.o.val, S4.ORDER), "original_metrics == parsed map")
+        fd_, fv_ = C4.fill_map4(v.o)
+        ctx.prove("post:metrics==Fill(O)", map_equal(m.dom, m.val, fd_, fv_, S4.ORDER), "metrics == Fill4(O)")
+        ctx.prove("post:base_score", float_matches(o.fields.get("base_score"), v.spec("score")),
+                  "base_score equals float(Score4(Eff4(O)))")
+        ctx.prove("post:severity", eq_z3(o.fields.get("severity"), v.spec("severity")), "severity is the official rating")
+
+    def effect(self, eng, st, args, kwargs):
+        o = args[0]
+        vec = args[1] if len(args) > 1 else kwargs.get("vector")
+        if not isinstance(vec, SStr):
+            return NotImplemented
+        ex = eng.module("exceptions").globals
+        if not st.decide(f_syn["4"](vec.z), "Syn4?"):
+            raise PyRaise(ex["CVSS4MalformedError"], ("malformed",))
+        shim = Shim(eng, st)
+        view = C4.V4(shim, "o", omap=lambda c, values: opaque_map(c, "4", values, vec, "o"))
+        if not st.decide(G4.mand(view.o.dom), "Mand4?"):
+            raise PyRaise(ex["CVSS4MandatoryError"], ("missing",))
+        full = view.obj("done")
+        o.fields.update(full.fields)
+        o.fields["vector"] = vec
+        o.v4view = view
+        return None
+
+
+def _attach4(o, view):
+    o.v4view = view
+
+
 def _attach3(o, view):
     o.v3view = view
 
@@ -294,7 +353,9 @@ def _attach2(o, view):
 
 
 # the constructors see parse_vector through this effect
-from .parse import ParseVector2, ParseVector3  # noqa: E402
+from .parse import ParseVector2, ParseVector3, ParseVector4  # noqa: E402
+
+ParseVector4.effect = parse_effect("4", G4, "CVSS4MalformedError", C4.V4, _attach4)
 
 ParseVector3.effect = parse_effect("3", G3, "CVSS3MalformedError", C3.V3, _attach3)
 ParseVector2.effect = parse_effect("2", G2, "CVSS2MalformedError", C2.V2, _attach2)
